@@ -103,7 +103,7 @@ Definition sok (g : stage) : nat -> bool :=
   match g with
   | GLimit n => fun k => k <=? n
   | GTee _ sched => fun k => k <=? List.length sched
-  | GFilter _ _ | GTakeWhile _ | GChain _ | GResampleTV _ _ _ => fun _ => false
+  | GFilter _ _ | GTakeWhile _ | GChain _ | GResampleTV _ _ _ | GRefuse _ => fun _ => false
   | _ => fun _ => true
   end.
 
